@@ -34,6 +34,19 @@ KINDS_ENABLED = {AGENT: 0, "x11": 1, "forwarded-tcpip": 2}
 REQ_NAMES = ["exit-status", "xon-xoff", "pty-req", "shell", "env", "exec", "subsystem", "window-change",
              "x11-req", "auth-agent-req@openssh.com"]
 NOTIFY = {"exit-status", "xon-xoff"}
+GLOBAL_NAMES = ["tcpip-forward", "cancel-tcpip-forward", "keepalive@openssh.com", "keepalive@lag.net",
+                "hostkeys-00@openssh.com", "hostkeys-prove-00@openssh.com", "no-more-sessions@openssh.com",
+                "streamlocal-forward@openssh.com", "cancel-streamlocal-forward@openssh.com"]
+_KEY = []
+
+
+def _key():
+    if not _KEY:
+        import paramiko
+        _KEY.append(paramiko.ECDSAKey.generate())
+    return _KEY[0]
+
+
 EVENT_NAMES = ["x11-granted", "x11-denied", "agent", "forward-granted", "forward-denied",
                "forward-inactive-granted", "forward-inactive-denied", "cancel", "cancel-inactive"]
 _quiet = [False]
@@ -222,9 +235,12 @@ def open_payload(kind, chanid, rng):
     return msg(kind, chanid, 65536, 32768, *extra)
 
 
-def request_payload(key, want, rng):
+SUBSYSTEMS = ["sftp", "netconf", "x-custom@example.com"]
+
+
+def request_payload(key, want, rng, subsystem="sftp"):
     f = {"exit-status": [rng.randrange(256)], "pty-req": ["vt100", 80, 24, 0, 0, b""], "env": ["LANG", "C"],
-         "exec": ["id; rm -rf /"], "subsystem": ["sftp"], "window-change": [80, 24, 0, 0],
+         "exec": ["id; rm -rf /"], "subsystem": [subsystem], "window-change": [80, 24, 0, 0],
          "x11-req": [False, "MIT-MAGIC-COOKIE-1", b"00ff", 0]}.get(key)
     if f is None:
         f = [] if rng.random() < 0.5 else ["x", rng.randrange(1 << 20)]
@@ -342,17 +358,36 @@ def drive_requests(ctx, cases, n_random):
     names = list(REQ_NAMES)
     for _ in range(n_random):
         names.append(rand_name(rng, REQ_NAMES))
-    for has_server, srv_ok in ((False, True), (False, False), (True, True), (True, False)):
+    import paramiko
+    started = []
+
+    class Handler(paramiko.SubsystemHandler):
+        def start_subsystem(self, name, transport, channel):
+            started.append(name)
+
+    # (has_server, what it says, application registrations present on the transport)
+    for has_server, srv_ok, registered in ((False, True, False), (False, False, False), (False, True, True),
+                                           (True, True, False), (True, False, False)):
         srv = SpyServer(srv_ok) if has_server else None
         rig = Rig(server_mode=has_server, server_object=srv)
+        if registered:
+            # everything an application can register on a transport that a stock ServerInterface would consult
+            for sub in SUBSYSTEMS:
+                rig.t.set_subsystem_handler(sub, Handler)
+            rig.t.add_server_key(_key())
         try:
-            for key in names:
+            grid = [(k, "sftp") for k in names]
+            if registered:
+                grid += [("subsystem", sub) for sub in SUBSYSTEMS]
+            for key, sub in grid:
                 for want in (True, False):
                     chan = rig.new_channel()
                     rig.sent.clear()
-                    case = {"request": key, "want_reply": want, "has_server": has_server, "server_says": srv_ok}
+                    del started[:]
+                    case = {"request": key, "want_reply": want, "has_server": has_server, "server_says": srv_ok,
+                            "subsystem": sub, "handlers_registered_on_transport": registered}
                     try:
-                        chan._handle_request(request_payload(key, want, rng))
+                        chan._handle_request(request_payload(key, want, rng, sub))
                     except Exception as e:
                         ctx.fail("client-channel-request-raises" if not has_server else "channel-request-raises",
                                  "Channel._handle_request raised instead of refusing (no server object)"
@@ -362,14 +397,15 @@ def drive_requests(ctx, cases, n_random):
                     obs = []
                     for p, b in rig.sent:
                         obs += [p, int.from_bytes(b[:4], "big")]
-                    ctx.count(("req", key, want, has_server, srv_ok), nontrivial=True,
+                    ctx.count(("req", key, want, has_server, srv_ok, sub, registered), nontrivial=True,
                               kind="request-%s-%s" % ("server" if has_server else "client",
                                                       "named" if key in REQ_NAMES else "other"))
                     if not has_server:
-                        if key not in NOTIFY and 99 in obs[0::2]:
+                        if key not in NOTIFY and (99 in obs[0::2] or started):
                             ctx.fail("client-approved-channel-request",
-                                     "a transport without a server object approved a channel request", case=case,
-                                     observed=obs)
+                                     "a transport without a server object approved a channel request"
+                                     + (" and started the subsystem handler registered on it" if started else ""),
+                                     case=case, observed={"sent": obs, "handlers_started": list(started)})
                         if want and key not in NOTIFY and obs != [100, chan.remote_chanid]:
                             ctx.fail("client-channel-request-reply",
                                      "a refused channel request was not answered with CHANNEL_FAILURE for the "
@@ -384,9 +420,13 @@ def drive_requests(ctx, cases, n_random):
 
 def drive_globals(ctx, cases, n_random):
     rng = ctx.rng
-    pool = ["tcpip-forward", "cancel-tcpip-forward", "keepalive@openssh.com", "hostkeys-00@openssh.com",
-            "no-more-sessions@openssh.com"]
+    pool = list(GLOBAL_NAMES)
     names = list(pool) + [rand_name(rng, pool) for _ in range(n_random)]
+    # every well-known name also as a prefix / family member (keepalive@<anything>, hostkeys-NN@..., ...)
+    for base in pool:
+        head = base.split("@")[0]
+        names += [head + "@" + "".join(rng.choice("abcdefghijklmnopqrstuvwxyz.") for _ in range(rng.randrange(1, 12))),
+                  head, base.split("-")[0] + "-" + "".join(rng.choice("0123456789abcdef") for _ in range(4))]
     # (server_mode, server object present, what it says)
     for server_mode, with_obj, srv_ok in ((False, False, True), (False, True, True), (False, True, False),
                                           (True, True, True), (True, True, False)):
@@ -448,6 +488,7 @@ def run(ctx):
         hists += list(itertools.product(range(9), repeat=n))
     for _ in range(600 if ctx.thorough else 120):
         hists.append(tuple(rng.randrange(9) for _ in range(rng.randrange(3, 11))))
+    # ---- 1. implementation-level oracles (never depend on the translator / model) ----------
     cases = []
     for i, h in enumerate(hists):
         custom = rng.random() < 0.5
@@ -459,33 +500,37 @@ def run(ctx):
     # them calls the unset handler - TypeError - which is a server-side matter outside this property)
     for ok in (True, False):
         drive_open(ctx, (), False, other + ["weird", "x12"], cases, server=SpyServer(ok))
-    if ctx.proof is not None and ctx.proof.model_ok:
-        bad = ctx.model_mismatches("run_open", "(bool * list Z * list Z * Z)",
-                                   [(coq(c), o) for c, o, _ in cases], shard=400)
-        for i in bad[:3]:
-            ctx.disagree("channel-open decision / handler state differs from the model", case=cases[i][2],
-                         impl=cases[i][1])
-    ctx.sample({"channel_open": {"case": cases[len(cases) // 2][2], "impl": cases[len(cases) // 2][1]}})
-
     rcases = []
     drive_requests(ctx, rcases, 120 if ctx.thorough else 30)
-    if ctx.proof is not None and ctx.proof.model_ok:
-        bad = ctx.model_mismatches("run_request", "(bool * list Z * bool * bool * Z)",
-                                   [(coq(c), o) for c, o, _ in rcases], shard=400)
-        for i in bad[:3]:
-            ctx.disagree("channel-request reply differs from the model", case=rcases[i][2], impl=rcases[i][1])
-    if rcases:
-        ctx.sample({"channel_request": {"case": rcases[5][2], "impl": rcases[5][1]}})
-
     gcases = []
     drive_globals(ctx, gcases, 80 if ctx.thorough else 20)
-    if ctx.proof is not None and ctx.proof.model_ok:
-        bad = ctx.model_mismatches("run_global", "(bool * list Z * bool * bool)",
-                                   [(coq(c), o) for c, o, _ in gcases], shard=400)
-        for i in bad[:3]:
-            ctx.disagree("global-request reply differs from the model", case=gcases[i][2], impl=gcases[i][1])
+    if cases:
+        ctx.sample({"channel_open": {"case": cases[len(cases) // 2][2], "impl": cases[len(cases) // 2][1]}})
+    if rcases:
+        ctx.sample({"channel_request": {"case": rcases[min(5, len(rcases) - 1)][2],
+                                        "impl": rcases[min(5, len(rcases) - 1)][1]}})
     if gcases:
         ctx.sample({"global_request": {"case": gcases[0][2], "impl": gcases[0][1]}})
+    # ---- 2. correspondence with the model (guarded: a translator abort must not hide the oracles) ---
+    model_compare(ctx, "run_open", "(bool * list Z * list Z * Z)", cases,
+                  "channel-open decision / handler state differs from the model")
+    model_compare(ctx, "run_request", "(bool * list Z * bool * bool * Z)", rcases,
+                  "channel-request reply differs from the model")
+    model_compare(ctx, "run_global", "(bool * list Z * bool * bool)", gcases,
+                  "global-request reply differs from the model")
+
+
+def model_compare(ctx, fn, typ, cases, what):
+    if ctx.proof is None or not ctx.proof.model_ok or not cases:
+        return
+    try:
+        bad = ctx.model_mismatches(fn, typ, [(coq(c), o) for c, o, _ in cases], shard=400)
+    except Exception as e:
+        ctx.corr_broken.append({"what": "model %s could not be evaluated (translator / build broken)" % fn,
+                                "error": str(e)[-600:]})
+        return
+    for i in bad[:3]:
+        ctx.disagree(what, case=cases[i][2], impl=cases[i][1])
 
 
 def replay(ctx, rep):
